@@ -45,3 +45,233 @@ func H_C15_camelkey() {
 	vAssert(rc == c, "camel-spelling-is-canonical")
 	vReach("end")
 }
+
+//verif:witness H_C15_refresh ok rejected
+//verif:bound C15 all real Refresh (NewPlugin/inject/injectAttribute/injectElement through the reflect shim) for every registered logger type (Logger, AsyncLogger, Discard, Console, File, RollingFile) x appender type (Discard, Console, File, RollingFile) x 12 configuration variants (valid; no appender section; unknown logger type; unknown appender type; dangling appenderRef; missing tags; ill-typed attribute; bad policy; bad level; property injection error; ${key} present; ${key} absent): returns nil or an error as specified, never panics
+//verif:assume C15 the expression-text -> map step of 'name!' entries is ANTLR's (see C17); toStorage is exercised with expr.Parse replaced by a table for the texts the harness uses, validated natively against the real parser on every cross-checked path
+
+func vLoggerNeedsRefs(typ string) bool { return typ == "Logger" || typ == "AsyncLogger" }
+
+func H_C15_refresh() {
+	vOpt("loop", 400)
+	vOpt("preempt", 1)
+	root := vFSRoot()
+	defer vFSCleanup()
+	dir := root + "/logs"
+	vFSMkdir(dir)
+	savedHandles := loggerMap
+	loggerMap = map[string]*LoggerWrapper{}
+	savedOut := Stdout
+	Stdout = &vSink{}
+	defer func() {
+		Destroy()
+		global.init = false
+		loggerMap = savedHandles
+		Stdout = savedOut
+		TagAppDef.logger, TagBizDef.logger = nil, nil
+		enableCaller, fastCaller = true, false
+	}()
+	ltype := [6]string{"Logger", "AsyncLogger", "Discard", "Console", "File", "RollingFile"}[vChoose("loggerType", 6)]
+	atype := [4]string{"Discard", "Console", "File", "RollingFile"}[vChoose("appenderType", 4)]
+	cfg := map[string]string{
+		"appender.a1.type":     atype,
+		"appender.a1.fileDir":  dir,
+		"appender.a1.fileName": "a1.log",
+		"appender.a1.rotation": "h",
+		"appender.a1.maxAge":   "24",
+		"logger.l1.type":       ltype,
+		"logger.l1.tags":       "_app_def",
+		"logger.l1.fileDir":    dir,
+		"logger.l1.fileName":   "l1.log",
+		"logger.l1.rotation":   "h",
+	}
+	if vLoggerNeedsRefs(ltype) {
+		cfg["logger.l1.appenderRef.ref"] = "a1"
+	}
+	wantErr := false
+	switch vChoose("variant", 12) {
+	case 0: // valid
+	case 1:
+		for k := range cfg {
+			if len(k) > 9 && k[:9] == "appender." {
+				delete(cfg, k)
+			}
+		}
+		wantErr = true
+	case 2:
+		cfg["logger.l1.type"] = "NoSuchLogger"
+		wantErr = true
+	case 3:
+		cfg["appender.a1.type"] = "NoSuchAppender"
+		wantErr = true
+	case 4:
+		if !vLoggerNeedsRefs(ltype) {
+			return
+		}
+		cfg["logger.l1.appenderRef.ref"] = "missing"
+		wantErr = true
+	case 5:
+		delete(cfg, "logger.l1.tags")
+		wantErr = true
+	case 6:
+		if ltype != "AsyncLogger" && ltype != "RollingFile" {
+			return
+		}
+		cfg["logger.l1.bufferSize"] = "12a"
+		wantErr = true
+	case 7:
+		if ltype != "AsyncLogger" && ltype != "RollingFile" {
+			return
+		}
+		cfg["logger.l1.bufferFullPolicy"] = "Sometimes"
+		wantErr = true
+	case 8:
+		cfg["logger.l1.level"] = "LOUD"
+		wantErr = true
+	case 9:
+		cfg["fastCaller"] = "maybe"
+		wantErr = true
+	case 10:
+		cfg["logger.l1.level"] = "${my.level}"
+		cfg["my.level"] = "warn~error"
+	default:
+		cfg["logger.l1.level"] = "${my.level}"
+		wantErr = true
+	}
+	err := Refresh(cfg) // a panic is a path outcome
+	if wantErr {
+		vAssert(err != nil, "bad-configuration-is-an-error")
+		vReach("rejected")
+	} else {
+		vAssert(err == nil, "every-registered-type-can-be-instantiated-from-configuration")
+		vReach("ok")
+	}
+}
+
+//verif:witness H_C15_inject end
+//verif:bound C15 all attribute resolution through the real Refresh for an AsyncLogger: each of bufferSize / bufferFullPolicy / level present or absent (declared defaults), values from well-typed literals incl. hex and padded forms, ${key} indirection, key spelling camelCase / kebab-case / snake_case, flat keys vs the inline 'logger.l1!' expression form; the created plugin's fields are compared with the configured value, else the declared default
+
+func vSpell(key string, mode int) string {
+	// key is camelCase; produce kebab-case or snake_case
+	if mode == 0 {
+		return key
+	}
+	sep := byte('-')
+	if mode == 2 {
+		sep = '_'
+	}
+	var out []byte
+	for i := 0; i < len(key); i++ {
+		c := key[i]
+		if 'A' <= c && c <= 'Z' {
+			out = append(out, sep, c+32)
+		} else {
+			out = append(out, c)
+		}
+	}
+	return string(out)
+}
+
+func H_C15_inject() {
+	vOpt("loop", 400)
+	vOpt("preempt", 1)
+	vOpt("exprtable", 1)
+	savedHandles := loggerMap
+	loggerMap = map[string]*LoggerWrapper{}
+	defer func() {
+		Destroy()
+		global.init = false
+		loggerMap = savedHandles
+		TagAppDef.logger, TagBizDef.logger = nil, nil
+	}()
+	spell := vChoose("spelling", 3)
+	inline := vChoose("inline", 2) == 1
+	type attr struct{ key, val string }
+	var attrs []attr
+	wantSize, wantPolicy := 10000, BufferFullPolicyDiscard
+	wantLevel := LevelRange{MinLevel: NoneLevel, MaxLevel: MaxLevel}
+	cfg := map[string]string{"appender.a1.type": "Rec"}
+	if vChoose("hasSize", 2) == 1 {
+		switch vChoose("size", 3) {
+		case 0:
+			attrs, wantSize = append(attrs, attr{"bufferSize", "100"}), 100
+		case 1:
+			attrs, wantSize = append(attrs, attr{"bufferSize", "0x80"}), 128
+		default:
+			if inline {
+				return // a padded value cannot be written as an unquoted expression token
+			}
+			attrs, wantSize = append(attrs, attr{"bufferSize", " 256 "}), 256
+		}
+	}
+	if vChoose("hasPolicy", 2) == 1 {
+		if vChoose("policy", 2) == 0 {
+			attrs, wantPolicy = append(attrs, attr{"bufferFullPolicy", "Block"}), BufferFullPolicyBlock
+		} else {
+			attrs, wantPolicy = append(attrs, attr{"bufferFullPolicy", "DiscardOldest"}), BufferFullPolicyDiscardOldest
+		}
+	}
+	if vChoose("hasLevel", 2) == 1 {
+		switch vChoose("level", 3) {
+		case 0:
+			attrs = append(attrs, attr{"level", "info"})
+			wantLevel = LevelRange{MinLevel: InfoLevel, MaxLevel: MaxLevel}
+		case 1:
+			if inline {
+				return // '~' is not an expression token
+			}
+			attrs = append(attrs, attr{"level", "warn~error"})
+			wantLevel = LevelRange{MinLevel: WarnLevel, MaxLevel: ErrorLevel}
+		default:
+			if inline {
+				return
+			}
+			attrs = append(attrs, attr{"level", "${myLevel}"})
+			cfg[vSpell("myLevel", spell)] = "debug"
+			wantLevel = LevelRange{MinLevel: DebugLevel, MaxLevel: MaxLevel}
+		}
+	}
+	if inline {
+		text := "AsyncLogger{tags=\"_app_def\",appenderRef=AppenderRef{ref=a1}"
+		m := map[string]string{"type": "AsyncLogger", "tags": "_app_def", "appenderRef.type": "AppenderRef", "appenderRef.ref": "a1"}
+		for _, a := range attrs {
+			k := vSpell(a.key, spell)
+			if spell == 1 {
+				return // '-' is not an identifier character of the expression grammar
+			}
+			text += "," + k + "=" + a.val
+			m[k] = a.val
+		}
+		text += "}"
+		vExprTable[text] = m
+		cfg["logger.l1!"] = text
+	} else {
+		cfg["logger.l1.type"] = "AsyncLogger"
+		cfg["logger.l1.tags"] = "_app_def"
+		cfg["logger.l1."+vSpell("appenderRef", spell)+".ref"] = "a1"
+		for _, a := range attrs {
+			cfg["logger.l1."+vSpell(a.key, spell)] = a.val
+		}
+	}
+	err := Refresh(cfg)
+	vAssert(err == nil, "well-typed-configuration-accepted")
+	if err != nil {
+		return
+	}
+	var al *AsyncLogger
+	for _, l := range global.loggers {
+		if x, ok := l.(*AsyncLogger); ok {
+			al = x
+		}
+	}
+	vAssert(al != nil, "async-logger-created")
+	if al != nil {
+		vAssert(al.Name == "l1", "name-attribute-from-key")
+		vAssert(al.BufferSize == wantSize, "integer-attribute-configured-or-default")
+		vAssert(al.BufferFullPolicy == wantPolicy, "converter-attribute-configured-or-default")
+		vAssert(al.Level == wantLevel, "level-attribute-configured-default-or-property-reference")
+		vAssert(al.Tags == "_app_def", "string-attribute")
+		vAssert(len(al.AppenderRefs.AppenderRefs) == 1 && al.AppenderRefs.AppenderRefs[0].Ref == "a1", "element-injected")
+	}
+	vReach("end")
+}
